@@ -16,10 +16,10 @@ ASSUMPTIONS = ["tangential terminal roots (|dg/dt| < 5% of scale) and runs whose
                "continuations use no events or a different, later terminal event (re-arming the same event at its own root is not specified by the property)"]
 FLOORS = {"quick": {"terminal_landings": 50, "landings_backward": 15, "landings_with_substeps": 30, "continuations_checked": 45, "infinite_target_runs": 8,
                     "dense_checked_after_stop": 15, "second_terminal_stops": 5, "close_pair_cases": 25,
-                    "landing_step_replay_steps": 60, "landings_far_from_time_origin": 8, "landings_on_a_recorded_step_end": 30, "terminal_runs_after_an_earlier_failure": 16, "continuation_step_replay_steps": 40},
+                    "landing_step_replay_steps": 60, "landings_far_from_time_origin": 8, "landings_on_a_recorded_step_end": 30, "terminal_runs_after_an_earlier_failure": 16, "continuation_step_replay_steps": 40, "array_query_before_terminal_run": 10, "array_queries_compared": 1500, "surveyed_with_other_attributes_first": 25},
           "thorough": {"terminal_landings": 500, "landings_backward": 150, "landings_with_substeps": 300, "continuations_checked": 450, "infinite_target_runs": 50,
                        "dense_checked_after_stop": 180, "second_terminal_stops": 40, "close_pair_cases": 180,
-                       "landing_step_replay_steps": 600, "landings_far_from_time_origin": 40, "landings_on_a_recorded_step_end": 100, "terminal_runs_after_an_earlier_failure": 16, "continuation_step_replay_steps": 400}}
+                       "landing_step_replay_steps": 600, "landings_far_from_time_origin": 40, "landings_on_a_recorded_step_end": 80, "terminal_runs_after_an_earlier_failure": 16, "continuation_step_replay_steps": 400}}
 QUICK_METHODS = ["RK45CKSolver", "DOPRI45", "RK4Solver", "RK8713MSolver", "ABAs5o6HSolver", "RadauIIA5", "GaussLegendre4", "RK5Solver", "LobattoIIIC4", "RK108Solver"]
 CASE_TIMEOUT = 900
 K = 10.0
@@ -154,6 +154,31 @@ def run_case(spec):
         if pre["raised"]:
             rec.bump("terminal_runs_after_an_earlier_failure")
         feats["after_failure"] = spec["after_failure"]
+    if spec["pseed"] % 3 == 1 and not spec.get("grid_terminal"):
+        # "survey first, then stop at the first": the SAME event function objects are first monitored by another system with every terminal flag
+        # off and no direction filter; afterwards the flags are set as the case wants them - what counts is the attribute at the time of the call
+        saved = [(e.is_terminal, e.direction) for e in events]
+        for e in events:
+            e.is_terminal, e.direction = False, 0
+        try:
+            scout = sysrun.make_system(f, y0.copy(), t0, tf, dt_.type(L / spec["nsteps"]), info["cls"], dense=False, rtol=rt_, atol=rt_ * 1e-2)
+            with warnings.catch_warnings():
+                warnings.simplefilter("ignore")
+                sc_ = sysrun.call_integrate(scout, t=t0 + 0.3 * (tf - t0), events=events, max_steps=20000)
+            if not sc_["raised"]:
+                rec.bump("surveyed_with_other_attributes_first")
+                feats["surveyed_first"] = True
+        finally:
+            for e, (it_, di_) in zip(events, saved):
+                e.is_terminal, e.direction = it_, di_
+    if spec["dense"] and not spec.get("after_failure") and spec["pseed"] % 3 == 0:
+        # an event-free first leg, then a VECTORISED dense query before the terminal run starts (whatever the dense output caches for array
+        # queries has to survive the roll-back of the step that crosses the terminal event)
+        pre = sysrun.call_integrate(system, t=t0 + 0.12 * (tf - t0), max_steps=20000)
+        if not pre["raised"] and len(system) > 2:
+            system.sol(np.linspace(float(system.t[0]), float(system.t[-1]), 7).astype(dt_))
+            rec.bump("array_query_before_terminal_run")
+            feats["array_query_before_terminal_run"] = True
     t_start = float(system.t[-1])      # (after an earlier, failed call the terminal run starts later than t0: only what lies ahead of it can fire)
     trace = DetectionTrace()
     try:
@@ -308,6 +333,7 @@ def run_case(spec):
             if e_ > 4 * dy * (1 + prob.lipschitz() * hmax) * 2 + 1e-12:
                 rec.violate("prefix_dense_accuracy", "dense_solution_inaccurate_on_the_prefix", feats, q=float(q), err=e_, bound=4 * dy)
                 break
+        _array_vs_scalar(rec, sol, t, dt_, feats, "prefix_dense_array_query")
     # (f) the sub-steps that land on the root start from the row BEFORE the rolled-back step: nothing of that step may leak into them
     tprev = [st["t_prev"] for st in trace.steps if st.get("terminate")]
     if tprev:
@@ -372,4 +398,22 @@ def run_case(spec):
             if e_ > bound2:
                 rec.violate("continuation_dense_accuracy", "dense_solution_inaccurate_after_continuation", f2, q=float(q), err=e_, bound=bound2)
                 break
+        _array_vs_scalar(rec, sol, t2, dt_, f2, "continuation_dense_array_query")
     return rec.out()
+
+
+def _array_vs_scalar(rec, sol, t, dt_, feats, clause):
+    """A vectorised query is the stack of the scalar ones (the scalar ones are judged against the exact solution by the caller)."""
+    q = np.linspace(float(t[0]), float(t[-1]), 31).astype(dt_)
+    try:
+        va = np.asarray(sol(q), dtype=np.longdouble)
+        vs = np.stack([np.asarray(sol(q[i]), dtype=np.longdouble) for i in range(len(q))])
+    except Exception as e:
+        rec.violate(clause, "dense_query_raised", feats, err=repr(e)[:200])
+        return
+    rec.bump("array_queries_compared", len(q))
+    eps_ = float(np.finfo(dt_).eps)
+    if va.shape != vs.shape or float(np.max(np.abs(va - vs) / (1.0 + np.abs(vs)))) > 64 * eps_:
+        bad = int(np.argmax(np.max(np.abs(va - vs), axis=tuple(range(1, vs.ndim))))) if va.shape == vs.shape else -1
+        rec.violate(clause, "array_query_differs_from_scalar_queries", feats, q=float(q[bad]) if bad >= 0 else None,
+                    diff=float(np.max(np.abs(va - vs))) if va.shape == vs.shape else None, shapes=[list(va.shape), list(vs.shape)])
